@@ -133,12 +133,19 @@ def flat(result):
     return [(p.mu, p.sigma) for team in result for p in team]
 
 
+DEFAULTS = dict(mu=25.0, sigma=25.0 / 3.0, beta=25.0 / 6.0, kappa=0.0001, tau=25.0 / 300.0, limit_sigma=False)
+
+
 def build(case, Ms=None):
     """case -> (model, teams of rating objects, kwargs for rate)."""
     Ms = Ms or models()
     M = Ms[case["model"]]
     cfg = dict(case.get("cfg") or {})
     g = cfg.pop("gamma", "default")
+    if cfg.pop("_defaults", False):
+        # rely on the library's OWN defaults: every parameter whose value is the documented default is left out of the
+        # constructor call (the monitors keep using the documented values, so a changed default shows)
+        cfg = {k: v for k, v in cfg.items() if not (k in DEFAULTS and v == DEFAULTS[k] and type(v) is type(DEFAULTS[k]))}
     if GAMMAS[g] is not None:
         cfg["gamma"] = GAMMAS[g]
     model = M(**cfg)
@@ -188,11 +195,10 @@ def rankvals_of(case):
     return list(range(n))
 
 
-DEFAULTS = dict(mu=25.0, sigma=25.0 / 3.0, beta=25.0 / 6.0, kappa=0.0001, tau=25.0 / 300.0, limit_sigma=False)
 
 
 def cfg_full(case):
     c = dict(DEFAULTS)
-    c.update({k: v for k, v in (case.get("cfg") or {}).items() if k != "gamma"})
+    c.update({k: v for k, v in (case.get("cfg") or {}).items() if k not in ("gamma", "_defaults")})
     c["gamma"] = (case.get("cfg") or {}).get("gamma", "default")
     return c
